@@ -106,7 +106,7 @@ def binary(variant, name="jbv"):
 # ------------------------------------------------------------------------------ shards
 
 
-def run_shards(variant, prop, tier, seed, nshards, out_dir, extra_args, timeout_s, env_extra=None, shard_ids=None):
+def run_shards(variant, prop, tier, seed, nshards, out_dir, extra_args, timeout_s, env_extra=None, shard_ids=None, wrapper=None):
     """Run the monitor sharded. Returns list of dicts {shard, rc, timed_out, json|None, log_tail}."""
     if os.path.isdir(out_dir):
         shutil.rmtree(out_dir)
@@ -119,7 +119,7 @@ def run_shards(variant, prop, tier, seed, nshards, out_dir, extra_args, timeout_
         if variant == "miri":
             cmd = miri_cmd() + ["--", prop]
         else:
-            cmd = [binary(variant), prop]
+            cmd = list(wrapper or []) + [binary(variant), prop]
         cmd += ["--tier", tier, "--seed", str(seed), "--shard", str(i), "--nshards", str(nshards), "--out", out_dir, "--repo", REPO] + extra_args
         penv = dict(env)
         for k2, v2 in list(penv.items()):
@@ -257,7 +257,7 @@ def run_stage(prop, tier, seed, stage, nshards_default):
         return res
     # canary: the sanitizer / interpreter must report a deliberately broken snippet
     if stage.get("canary"):
-        c_ok, note = run_canary(variant, stage["canary"])
+        c_ok, note = run_canary(variant, stage["canary"], stage.get("wrapper"))
         res["notes"].append(note)
         if not c_ok:
             res["inconclusive"].append(f"layer {name}: canary not reported ({note})")
@@ -267,7 +267,7 @@ def run_stage(prop, tier, seed, stage, nshards_default):
     out_dir = os.path.join(WORK, "logs", prop, name)
     timeout_s = stage.get("timeout_s", 1800 if tier == "quick" else 4 * 3600)
     env_extra = dict(stage.get("env", {}))
-    results = run_shards(variant, prop, tier, seed, nshards, out_dir, stage.get("args", []), timeout_s, env_extra)
+    results = run_shards(variant, prop, tier, seed, nshards, out_dir, stage.get("args", []), timeout_s, env_extra, wrapper=stage.get("wrapper"))
     died = [r for r in results if r["json"] is None]
     # a shard that died: identify the case from the BEGIN/END log, re-run it alone to classify
     # the death, then resume the shard after that case so that no other case is lost
@@ -284,7 +284,7 @@ def run_stage(prop, tier, seed, stage, nshards_default):
             sub, idx = case
             solo_dir = os.path.join(WORK, "logs", prop, name + f"-solo-{r['shard']}-{restarts}")
             solo_timeout = timeout_s if not r["timed_out"] else timeout_s * 4
-            solo = run_shards(variant, prop, tier, seed, 1, solo_dir, stage.get("args", []) + ["--replay", sub, str(idx)], solo_timeout, env_extra, shard_ids=[0])[0]
+            solo = run_shards(variant, prop, tier, seed, 1, solo_dir, stage.get("args", []) + ["--replay", sub, str(idx)], solo_timeout, env_extra, shard_ids=[0], wrapper=stage.get("wrapper"))[0]
             solo_tail = tail(os.path.join(solo_dir, "shard-0.stderr"), 60)
             if solo["json"] is not None:
                 # did not reproduce alone: keep its findings, flag the shard loss as inconclusive
@@ -301,7 +301,7 @@ def run_stage(prop, tier, seed, stage, nshards_default):
                 res["inconclusive"].append(f"{name}: shard {r['shard']} restarted {restarts} times; giving up on its remaining cases")
                 break
             cur_dir = os.path.join(WORK, "logs", prop, name + f"-resume-{r['shard']}-{restarts}")
-            r = run_shards(variant, prop, tier, seed, nshards, cur_dir, stage.get("args", []) + ["--resume-after", sub, str(idx)], timeout_s, env_extra, shard_ids=[r["shard"]])[0]
+            r = run_shards(variant, prop, tier, seed, nshards, cur_dir, stage.get("args", []) + ["--resume-after", sub, str(idx)], timeout_s, env_extra, shard_ids=[r["shard"]], wrapper=stage.get("wrapper"))[0]
             if r["json"] is not None:
                 results.append(r)
         res["notes"].append(f"shard {r0['shard']} was restarted {restarts} time(s)")
@@ -321,6 +321,8 @@ def classify_death(solo, stderr_tail, variant):
     if "AddressSanitizer" in stderr_tail:
         m = re.search(r"AddressSanitizer: (\S+)", stderr_tail)
         return "asan:" + (m.group(1) if m else "report")
+    if "Invalid read" in stderr_tail or "Invalid write" in stderr_tail or "uninitialised value" in stderr_tail:
+        return "memcheck:error"
     if "ThreadSanitizer" in stderr_tail:
         return "tsan:data-race"
     if "Undefined Behavior" in stderr_tail or "error: Undefined" in stderr_tail:
@@ -337,7 +339,7 @@ def classify_death(solo, stderr_tail, variant):
     return None
 
 
-def run_canary(variant, mode):
+def run_canary(variant, mode, wrapper=None):
     env = base_env()
     if variant == "miri":
         cmd = ["cargo", "+nightly", "miri", "run", "--profile", "checked", "--bin", "canary", "--", mode]
@@ -345,7 +347,7 @@ def run_canary(variant, mode):
         env["CARGO_TARGET_DIR"] = target_dir("miri")
         cwd = harness_dir()
     else:
-        cmd = [binary(variant, "canary"), mode]
+        cmd = list(wrapper or []) + [binary(variant, "canary"), mode]
         cwd = VERIF
     if variant == "asan":
         env["ASAN_OPTIONS"] = "halt_on_error=1:abort_on_error=0:detect_leaks=0"
@@ -357,7 +359,7 @@ def run_canary(variant, mode):
         return False, "canary timed out"
     text = p.stdout
     marks = {"asan": "AddressSanitizer", "tsan": "ThreadSanitizer", "miri": "Undefined Behavior"}
-    mark = marks.get(variant, "")
+    mark = "Invalid read" if wrapper and "valgrind" in wrapper[0] else marks.get(variant, "")
     ok = p.returncode != 0 and mark in text
     return ok, f"canary[{variant}/{mode}] rc={p.returncode} reported={'yes' if mark in text else 'no'}"
 
